@@ -6,6 +6,7 @@ import (
 	"fmt"
 	"os"
 	"path/filepath"
+	"sort"
 	"strconv"
 	"strings"
 
@@ -485,14 +486,29 @@ func parseSingle(path string) {
 		}
 	case "1259":
 		fmt.Println("pg_class:")
-		for _, t := range pgdump.ParsePGClass(data) {
+		// ParsePGClass returns a map keyed by filenode: list in filenode order, not in map-iteration order
+		tables := pgdump.ParsePGClass(data)
+		filenodes := make([]uint32, 0, len(tables))
+		for filenode := range tables {
+			filenodes = append(filenodes, filenode)
+		}
+		sort.Slice(filenodes, func(i, j int) bool { return filenodes[i] < filenodes[j] })
+		for _, filenode := range filenodes {
+			t := tables[filenode]
 			fmt.Printf("  %s (OID %d, filenode %d, kind %s)\n", t.Name, t.OID, t.Filenode, t.Kind)
 		}
 	case "1249":
 		fmt.Println("pg_attribute:")
-		for relid, cols := range pgdump.ParsePGAttribute(data, 0) {
+		// ParsePGAttribute returns a map keyed by relation oid: list in oid order
+		attrs := pgdump.ParsePGAttribute(data, 0)
+		relids := make([]uint32, 0, len(attrs))
+		for relid := range attrs {
+			relids = append(relids, relid)
+		}
+		sort.Slice(relids, func(i, j int) bool { return relids[i] < relids[j] })
+		for _, relid := range relids {
 			fmt.Printf("  relation %d:\n", relid)
-			for _, c := range cols {
+			for _, c := range attrs[relid] {
 				fmt.Printf("    %d: %s (%s)\n", c.Num, c.Name, pgdump.TypeName(c.TypID))
 			}
 		}
